@@ -23,14 +23,14 @@ from vf.props.common import harness_error, inconclusive, proved, violation
 ID = "C02"
 LEVEL = "model_checking"
 ITEM_BUDGET_S = {"quick": 240, "thorough": 900}
-QT = {"quick": 15000, "thorough": 60000}
+QT = {"quick": 15000, "thorough": 20000}
 _TIER = "quick"
 
 META = dict(
     rule="one case = (recipe, wrt variable, explored path); non-trivial = at least one validity query was decided for the recipe",
     bounds={
         "quick": "recipes of depth <= 2 over {x,y,z, numbers, symbolic constant c, Parameter p}, all 19 unary ops, 5 binary ops, every vector/matrix reduction node with n=3 (2x2 matrices); wrt = every mentioned variable + one that does not occur; z3 timeout 15 s/query",
-        "thorough": "adds depth-3 compositions, vector sizes 1,2,4,5 and VERIF_SEED random depth-3 recipes; z3 timeout 60 s/query",
+        "thorough": "adds depth-3 compositions, vector sizes 1,2,4,5 and VERIF_SEED random depth-3 recipes; z3 timeout 20 s/query",
     },
     outside=["floating-point rounding/overflow (S7: exact reals)", "points outside dom (non-differentiable points)",
              "recipes beyond the stated depth/size", "array-valued Constant/Parameter"],
@@ -54,7 +54,7 @@ def items(tier, seed):
     its += [("twin", 0)]
     its += [("rs", ch) for ch in K.chunks(rs, 6)]
     its += [("t1", ch) for ch in K.chunks(t1_cases(), 12)]
-    return its + K.touched_items(its, 3 if tier == "quick" else 1, ("rs",))
+    return its + K.touched_items(its, 3, ("rs",))
 
 
 def _grad_points(recipe, val, names):
@@ -148,8 +148,13 @@ def check_recipe(recipe, planted=False):
             elif v.status == "sat":
                 mv = smt.model_values(v.model, allv)
                 sig = f"C02|wrong-derivative|{K.shape(recipe, 3)}"
-                res.append(violation(sig, f"gradient({show(recipe)}, {w}) differs from d/d{w}" + (" after the parameters were updated" if val is val1 else ""),
-                                     dict(kind="value", recipe=K.enc(recipe), wrt=w_, values={k: str(x) for k, x in mv.items()})))
+                pl_ = dict(kind="value", recipe=K.enc(recipe), wrt=w_, values={k: str(x) for k, x in mv.items()})
+                if v.alt_model is not None:
+                    pl_["values_alt"] = {k: str(x) for k, x in smt.model_values(v.alt_model, allv).items()}
+                rv_ = violation(sig, f"gradient({show(recipe)}, {w}) differs from d/d{w}" + (" after the parameters were updated" if val is val1 else ""), pl_)
+                if v.tiny:
+                    rv_["rounding_level"] = True
+                res.append(rv_)
             else:
                 res.append(inconclusive(f"unknown: d/d{w} {show(recipe)}"))
     return res
